@@ -40,7 +40,7 @@ func enumLit(kind string, v int) string {
 	case "float":
 		return fmt.Sprintf("%d.5", v)
 	case "floatclose":
-		return fmt.Sprintf("1.000000%d", v)
+		return fmt.Sprintf("1.500000%d", v)
 	case "string":
 		return fmt.Sprintf("%q", string(rune('x'+v%3))+fmt.Sprint(v/3))
 	}
